@@ -28,10 +28,12 @@ inductive ErrClass where
   | stall       -- the code would consume nothing and loop again (a hang in Python)
   | auth        -- AEAD open failed
   | fuel        -- model fuel exhausted: only reachable when `ext` does not make progress
+  | consumer    -- the layer above (listener / handler) raised and the transport lets it escape
   deriving DecidableEq, Repr
 
 def ErrClass.toStr : ErrClass → String
   | .malformed => "malformed" | .stall => "stall" | .auth => "auth" | .fuel => "fuel"
+  | .consumer => "consumer"
 
 /-- Outcome of one attempt to cut a message off the front of the buffer. -/
 inductive Res (M : Type) where
@@ -100,6 +102,24 @@ def feedAllFrom (f : Framer M) : Out M → List Bytes → Out M
     | none => feedAllFrom f ((feed f o.rest c).pre o.msgs) cs
 
 def feedAll (f : Framer M) (chunks : List Bytes) : Out M := feedAllFrom f ⟨[], [], none⟩ chunks
+
+/-! ### The layer above fails on a message
+
+What a transport does when its listener/handler raises while being handed message `m`
+(`bad m`).  In every receive loop the buffer has already been advanced past `m` at that
+point.  Two policies exist in the code:
+* *swallow* — `try: … except Exception: log` around the hand-over (MRP `_handle_message`,
+  Companion `frame_received`, `BasicHttpServer._parse_and_send_next` → 500 response): the
+  loop goes on; framing does not depend on the consumer at all, the framer is unchanged.
+* *propagate* — no barrier (`DataStreamChannel.handle_received` → `handle_protobuf`): the
+  exception leaves `data_received`, asyncio closes the transport.  `withConsumer f bad` is
+  that framer: the hand-over of a bad message ends the run with `err consumer`. -/
+
+def withConsumer (f : Framer M) (bad : M → Bool) : Framer M := ⟨fun b =>
+  match f.ext b with
+  | .msg m r => if bad m then .err .consumer else .msg m r
+  | .need => .need
+  | .err e => .err e⟩
 
 /-! ### Sends between reads, and several connections at once
 
